@@ -29,7 +29,7 @@ class mbox(BoxCommand):
 class makebox(TextBoxCommand):
     args = '[ width:dimen ] [ pos:str ] self'
 
-class fbox(Command):
+class fbox(BoxCommand):
     args = 'self'
 
 class framebox(TextBoxCommand):
